@@ -1,6 +1,7 @@
 package main
 
 import (
+	"github.com/apparentlymart/go-versions/versions"
 	"fmt"
 	"strings"
 
@@ -327,6 +328,11 @@ func init() {
 				reg, _ := sourceaddrs.ParseRegistrySource(regStr)
 				real, _ := sourceaddrs.ParseRemoteSource(realStr)
 				got := reg.FinalSourceAddr(real)
+				if v, verr := versions.ParseVersion("1.2.3"); verr == nil {
+					if got2 := reg.Versioned(v).FinalSourceAddr(real); got2 != got {
+						rep.AddOracle(OracleFailure{Property: "C11", Lane: "resolve", What: "RegistrySourceFinal.FinalSourceAddr differs from RegistrySource.FinalSourceAddr", Input: []string{regStr, realStr}})
+					}
+				}
 				want := strings.Trim(s2+"/"+s1, "/")
 				if got.SubPath() != want || got.Package() != real.Package() {
 					rep.AddOracle(OracleFailure{Property: "C11", Lane: "resolve", What: "registry sub-path join differs from concatenation", Input: []string{regStr, realStr}})
